@@ -106,13 +106,25 @@ func atomicLayer(t *testing.T, c *ev.Check, thorough bool, end time.Time) (atomS
 	all := true
 	var cut []string
 	e.Deadline = end
-	for _, s := range scs {
+	var keep []interface{}
+	for i, s := range scs {
+		if i == len(scs)-len(lsc) || i == 1 {
+			// the evidence keeps a few samples only: make room for one of the next group
+			if l, ok := c.Coverage["samples"].([]interface{}); ok && len(l) > 0 {
+				keep = append(keep, l[len(l)-1])
+			}
+			delete(c.Coverage, "samples")
+		}
 		done, ok := e.Explore(s.name, s.bound)
 		if !ok {
 			all = false
 			cut = append(cut, fmt.Sprintf("%s: completed bound %d of %d", s.name, done, s.bound))
 		}
 	}
+	if l, ok := c.Coverage["samples"].([]interface{}); ok && len(l) > 0 {
+		keep = append(keep, l[len(l)-1])
+	}
+	c.Coverage["samples"] = keep
 	e.Summarize(all)
 	st := atomStats{execs: e.Execs, transitions: e.PointsN}
 	if v, ok := c.Coverage["states"].(int); ok {
